@@ -214,3 +214,216 @@ RECIPES += [
     ("C04", "break", ["C04-R7"], F_, "            mtype = 4\n            multiplier = 2\n", "            mtype = 4\n            multiplier = 1\n", "_get_header_info: complex input with one real per entry"),
     ("C04", "break", ["C04-R7"], F_, "            mtype = 2\n            multiplier = 1\n", "            mtype = 1\n            multiplier = 1\n", "_get_header_info: real input announced as type 1"),
 ]
+
+
+# ---------------------------------------------------------------------------------------------------------------- pass 3
+# constructs the evaluator lowers since pass 3 (reads cut from one buffer, unpack_from, seek, numpy typed arrays, match, tables indexed by flags,
+# records, counter loops, enumerate over the transpose, index loops, io buffers, partial, max()): a correct variant each, and a broken sibling
+_TAIL = ("                Y = np.fromfile(fp, numform2, nwords)\n            put(X, r, c, Y)\n            fp.read(4)\n            reclen = s4(fp.read(4))[0]\n"
+         "            c, r, nwords = s3(fp.read(b3))\n")
+_TAIL_HEAD = "                Y = np.fromfile(fp, numform2, nwords)\n            put(X, r, c, Y)\n"
+_LB = "        reclen = self._Str_i4.unpack(fp.read(4))[0]\n        c, r, nwords = self._Str_iii.unpack(fp.read(self._bytes_iii))\n"
+_DW = '            f.write(struct.pack(endian + ("%dd" % elems), *v))\n'
+_MT = ("        if mtype & 1:\n            numform = self._str_sr\n            numform2 = self._str_sr_fromfile\n            bytesreal = self._bytes_sr\n"
+       "            wper = 1\n        else:\n            numform = self._str_dr\n            numform2 = self._str_dr_fromfile\n            bytesreal = 8\n"
+       "            wper = self._wordsperdouble  # should this be 2 no matter what?\n")
+
+
+def _mt(first):
+    return (f"        match mtype & 1:\n            case {first}:\n                numform, numform2 = self._str_sr, self._str_sr_fromfile\n"
+            "                bytesreal, wper = self._bytes_sr, 1\n            case _:\n                numform, numform2 = self._str_dr, self._str_dr_fromfile\n"
+            "                bytesreal, wper = 8, self._wordsperdouble\n")
+
+
+_WPER = "        wper = 1 if mtype & 1 else 2\n        line = self._fileh.readline()\n        linelen = perline * numlen\n"
+_SL8 = ("                c_slice = slice(0, 8)\n                r_slice = slice(8, 16)\n                f_slice = slice(16, 24)\n                t_slice = slice(24, 32)\n"
+        "                n_slice = slice(32, 40)\n")
+_DA = ("            for c in range(cols):\n                v = matrix[:, c]\n                if np.any(v):\n                    pv = np.nonzero(v)[0]\n"
+       "                    s = pv[0]\n                    e = pv[-1]\n                    elems = (e - s + 1) * multiplier\n"
+       "                    v = np.asarray(v[s : e + 1]).ravel()\n                    v.dtype = float\n")
+_DA_A = _DA + "                    _write_col_data(f, v, c, s, elems, perline, numform)\n"
+_DA_B = _DA + "                    _write_col_data(f, v, c, s, elems, endian, colHeader, colTrailer)\n"
+
+
+def _while_cols(step):
+    return ("            c = 0\n            while c < cols:\n                v = matrix[:, c]\n                if np.any(v):\n                    pv = np.nonzero(v)[0]\n"
+            "                    s = pv[0]\n                    e = pv[-1]\n                    elems = (e - s + 1) * multiplier\n"
+            "                    v = np.asarray(v[s : e + 1]).ravel()\n                    v.dtype = float\n"
+            f"                    _write_col_data(f, v, c{step}, s, elems, perline, numform)\n                c += 1\n")
+
+
+def _enum_cols(start):
+    return (f"            for c, v in enumerate(matrix.T{start}):\n                if not np.any(v):\n                    continue\n                pv = np.nonzero(v)[0]\n"
+            "                s, e = pv[[0, -1]]\n                elems = (e - s + 1) * multiplier\n                v = np.asarray(v[s : e + 1]).ravel()\n"
+            "                v.dtype = float\n                _write_col_data(f, v, c, s, elems, endian, colHeader, colTrailer)\n")
+
+
+_IXL = ("                    for r0, r1 in ind:\n                        string = v[r0 : r0 + r1]\n                        string.dtype = float\n"
+        "                        _write_data_string(\n                            f, string, r0, r1, multiplier, perline, numform\n                        )\n")
+
+
+def _ixl(a, b):
+    return (f"                    for k in range(len(ind)):\n                        {a}, {b} = ind[k]\n                        string = v[r0 : r0 + r1]\n"
+            "                        string.dtype = float\n                        _write_data_string(\n"
+            "                            f, string, r0, r1, multiplier, perline, numform\n                        )\n")
+
+
+_LIM = ("            if rows > 99_999_999 or cols > 99_999_998:\n                raise ValueError(\n"
+        "                    \"current maximum matrix dimensions for ascii writes are:\"\n                    f\" (99999999, 99999998). Have: {mat.shape}.\"\n                )\n")
+
+
+def _lim(rmax):
+    return (f"            if max(rows - {rmax}, cols - 99_999_998) > 0:\n                raise ValueError(\n"
+            "                    \"current maximum matrix dimensions for ascii writes are:\"\n                    f\" (99999999, 99999998). Have: {mat.shape}.\"\n                )\n")
+
+
+_BREC = ("            f.write(colHeader.pack(reclen, c + 1, s + 1, 2 * elems))\n            f.write(struct.pack(endian + (\"%dd\" % elems), *v))\n"
+         "            f.write(colTrailer.pack(reclen))\n")
+
+
+def _brec(order):
+    parts = {"h": "            rec.write(colHeader.pack(reclen, c + 1, s + 1, 2 * elems))\n",
+             "d": "            rec.write(struct.pack(endian + (\"%dd\" % elems), *v))\n", "t": "            rec.write(colTrailer.pack(reclen))\n"}
+    return "            import io\n\n            rec = io.BytesIO()\n" + "".join(parts[k] for k in order) + "            f.write(rec.getvalue())\n"
+
+
+_NBH = ("        def _write_col_header(f, ind, c, multiplier):\n            nwords = ind.shape[0] + 2 * sum(ind[:, 1]) * multiplier\n"
+        "            f.write(f\"{c + 1:8}{0:8}{nwords:8}\\n\")\n")
+
+
+def _nbh(hw):
+    return ("        import functools\n\n        def _col_header(f, ind, c, multiplier, *, hdrwords):\n"
+            "            nwords = hdrwords * ind.shape[0] + 2 * sum(ind[:, 1]) * multiplier\n            f.write(f\"{c + 1:8}{0:8}{nwords:8}\\n\")\n\n"
+            f"        _write_col_header = functools.partial(_col_header, hdrwords={hw})\n")
+
+
+_EDP = ("    if np.iscomplexobj(m):\n        if m.dtype != np.complex128:\n            return m.astype(np.complex128)\n    elif m.dtype != np.float64:\n"
+        "        return m.astype(np.float64)\n    return m\n")
+_FUNCS = ("        if not sparse:\n            if mtype < 3:\n                funcs = (OP4._init_dense_real, put_values, OP4._dense_matrix)\n            else:\n"
+          "                funcs = (OP4._init_dense_complex, put_values_c, OP4._dense_matrix)\n")
+
+RECIPES += [
+    ("C04", "neutral", [], F_, _TAIL, _TAIL_HEAD + "            tail = fp.read(8 + b3)\n            reclen = s4(tail[4:8])[0]\n            c, r, nwords = s3(tail[8:])\n",
+     "dense binary reader: trailer, next record length and next column header cut from one read"),
+    ("C04", "break", ["C04-R3"], F_, _TAIL, _TAIL_HEAD + "            tail = fp.read(8 + b3)\n            reclen = s4(tail[4:8])[0]\n            c, r, nwords = s3(tail[4 : 4 + b3])\n",
+     "dense binary reader: column header cut four bytes early from the bytes read"),
+    ("C04", "neutral", [], F_, _TAIL, _TAIL_HEAD + "            fp.seek(4, 1)\n            (reclen,) = s4(fp.read(4))\n            c, r, nwords = s3(fp.read(b3))\n",
+     "dense binary reader: the record trailer is skipped with seek(4, 1)"),
+    ("C04", "break", ["C04-R3"], F_, _TAIL, _TAIL_HEAD + "            fp.seek(8, 1)\n            (reclen,) = s4(fp.read(4))\n            c, r, nwords = s3(fp.read(b3))\n",
+     "dense binary reader: seek skips eight bytes where the trailer has four"),
+    ("C04", "neutral", [], F_, _LB, "        buf = fp.read(4 + self._bytes_iii)\n        (reclen,) = self._Str_i4.unpack_from(buf)\n"
+     "        c, r, nwords = self._Str_iii.unpack_from(buf, 4)\n", "binary loader: first column header through unpack_from on one buffer"),
+    ("C04", "break", ["C04-R2", "C04-R3"], F_, _LB, "        buf = fp.read(4 + self._bytes_iii)\n        (reclen,) = self._Str_i4.unpack_from(buf)\n"
+     "        c, r, nwords = self._Str_iii.unpack_from(buf, 8)\n", "binary loader: unpack_from at offset 8 runs past the bytes read"),
+    ("C04", "neutral", [], F_, _DW, '            f.write(np.asarray(v, dtype=endian + "f8").tobytes())\n', "dense binary writer: values through numpy (asarray with the file's dtype, tobytes)"),
+    ("C04", "break", ["C04-R3"], F_, _DW, '            f.write(np.asarray(v, dtype=endian + "f4").tobytes())\n', "dense binary writer: values converted to 4-byte reals"),
+    ("C04", "neutral", [], F_, _MT, _mt(1), "binary loader: precision selected by a match statement"),
+    ("C04", "break", ["C04-R3"], F_, _MT, _mt(0), "binary loader: match arms exchanged (double precision read as single)"),
+    ("C04", "neutral", [], F_, _WPER, _WPER.replace("1 if mtype & 1 else 2", "(2, 1)[bool(mtype & 1)]"), "ascii loader: words per value from a table indexed by a flag"),
+    ("C04", "break", ["C04-R3"], F_, _WPER, _WPER.replace("1 if mtype & 1 else 2", "(1, 2)[bool(mtype & 1)]"), "ascii loader: flag-indexed table with its entries exchanged"),
+    ("C04", "neutral", [], F_, _SL8, "                c_slice, r_slice, *rest = slice(0, 8), slice(8, 16), slice(16, 24), slice(24, 32), slice(32, 40)\n"
+     "                f_slice, t_slice, n_slice = rest\n", "ascii loader: header slices through a starred unpacking"),
+    ("C04", "break", ["C04-R2"], F_, _SL8, "                c_slice, r_slice, *rest = slice(0, 8), slice(8, 16), slice(16, 24), slice(24, 32), slice(32, 40)\n"
+     "                f_slice, t_slice, n_slice = rest[0], rest[1], rest[1]\n", "ascii loader: starred unpacking, name read from the type field"),
+    ("C04", "neutral", [], F_, _DA_A, _while_cols(""), "dense ascii writer: columns counted by a while loop"),
+    ("C04", "break", ["C04-R3"], F_, _DA_A, _while_cols(" + 1"), "dense ascii writer: while-loop counter announced one column too high"),
+    ("C04", "neutral", [], F_, _DA_B, _enum_cols(""), "dense binary writer: columns by enumerate over the transpose, first / last row by a list index"),
+    ("C04", "break", ["C04-R3"], F_, _DA_B, _enum_cols(", 1"), "dense binary writer: enumerate starts at 1 (column number off by one)"),
+    ("C04", "neutral", [], F_, _IXL, _ixl("r0", "r1"), "ascii sparse writer: strings reached through an index loop"),
+    ("C04", "break", ["C04-R3"], F_, _IXL, _ixl("r1", "r0"), "ascii sparse writer: index loop unpacks (length, start) for (start, length)"),
+    ("C04", "neutral", [], F_, _LIM, _lim("99_999_999"), "_get_header_info: dimension limits tested through max()"),
+    ("C04", "break", ["C04-R2", "C04-R4"], F_, _LIM, _lim("999_999_999"), "_get_header_info: max() test admits nine-digit row counts"),
+    ("C04", "neutral", [], F_, _BREC, _brec("hdt"), "dense binary writer: record assembled in an io.BytesIO"),
+    ("C04", "break", ["C04-R3"], F_, _BREC, _brec("htd"), "dense binary writer: buffered record with the trailer in front of the values"),
+    ("C04", "neutral", [], F_, _NBH, _nbh(1), "nonbigmat ascii column header through functools.partial with a keyword-only argument"),
+    ("C04", "break", ["C04-R3"], F_, _NBH, _nbh(2), "nonbigmat ascii column header: partial binds two header words per string"),
+    ("C04", "neutral", [], F_, _EDP, "    target = np.complex128 if np.iscomplexobj(m) else np.float64\n    return m if m.dtype == target else m.astype(target)\n",
+     "_ensure_dp as two conditional expressions"),
+    ("C04", "break", ["C04-R7"], F_, _EDP, "    target = np.complex64 if np.iscomplexobj(m) else np.float64\n    return m if m.dtype == target else m.astype(target)\n",
+     "_ensure_dp as conditional expressions: complex64 target"),
+    ("C04", "neutral", [], F_, _FUNCS, "        if not sparse:\n            init = (OP4._init_dense_real, OP4._init_dense_complex)[mtype >= 3]\n"
+     "            funcs = (init, (put_values, put_values_c)[not mtype < 3], OP4._dense_matrix)\n", "_get_funcs: callbacks from tables indexed by comparisons"),
+]
+
+_SYM = ("        if isinstance(m, tuple):\n            r, c, v = m[1:]\n            low = r > c  # values in lower triangle\n            upp = c > r  # values in upper triangle\n\n"
+        "            if np.count_nonzero(low) != np.count_nonzero(upp):\n                return False\n\n            rl = r[low]\n            cl = c[low]\n"
+        "            vl = v[low]\n            ru = r[upp]\n            cu = c[upp]\n            vu = v[upp]\n\n            sortl = np.lexsort((cl, rl))\n"
+        "            sortu = np.lexsort((ru, cu))\n            return (\n                np.all(cl[sortl] == ru[sortu])\n                and np.all(rl[sortl] == cu[sortu])\n"
+        "                and np.allclose(vl[sortl], vu[sortu])\n            )\n        return np.allclose(m.transpose(), m)\n")
+
+
+def _sym_helper(second):
+    return ("        if not isinstance(m, tuple):\n            return np.allclose(m.transpose(), m)\n\n        _, r, c, v = m\n\n        def triangle(major, minor):\n"
+            "            # entries with major > minor, ordered by (major, minor)\n            pick = major > minor\n"
+            "            order = np.lexsort((minor[pick], major[pick]))\n"
+            "            return np.count_nonzero(pick), major[pick][order], minor[pick][order], v[pick][order]\n\n"
+            "        nlow, rl, cl, vl = triangle(r, c)\n        nupp, cu, ru, vu = triangle(c, r)\n        if nlow != nupp:\n            return False\n"
+            f"        for lower, upper in ((cl, ru), {second}):\n            if not np.array_equal(lower, upper):\n                return False\n"
+            "        return np.allclose(vl, vu)\n")
+
+
+def _sym_early(rows_rhs):
+    return ("        if not isinstance(m, tuple):\n            return np.allclose(m.transpose(), m)\n\n        r, c, v = m[1:]\n        low = r > c\n        upp = c > r\n\n"
+            "        if np.count_nonzero(low) != np.count_nonzero(upp):\n            return False\n\n        rl, cl, vl = r[low], c[low], v[low]\n"
+            "        ru, cu, vu = r[upp], c[upp], v[upp]\n        sortl = np.lexsort((cl, rl))\n        sortu = np.lexsort((ru, cu))\n"
+            "        same_cols = np.all(cl[sortl] == ru[sortu])\n        if not same_cols:\n            return same_cols\n"
+            f"        same_rows = np.all(rl[sortl] == {rows_rhs}[sortu])\n        if not same_rows:\n            return False\n"
+            "        return np.allclose(vl[sortl], vu[sortu])\n")
+
+
+_WB = ('            if sparse == "dense":\n                wrtfunc = self._write_binary\n            elif sparse == "bigmat":\n                wrtfunc = self._write_binary_bigmat\n'
+       '            elif sparse == "nonbigmat":\n                wrtfunc = self._write_binary_nonbigmat\n            elif sparse != "auto":\n'
+       '                raise ValueError("invalid sparse option")\n            if endian == "":\n')
+
+
+def _wb_match(nb):
+    return ('            match sparse:\n                case "dense":\n                    wrtfunc = self._write_binary\n                case "bigmat":\n'
+            f'                    wrtfunc = self._write_binary_bigmat\n                case "nonbigmat":\n                    wrtfunc = self.{nb}\n'
+            '                case "auto":\n                    pass\n                case _:\n                    raise ValueError("invalid sparse option")\n'
+            '            if endian == "":\n')
+
+
+_WA = ('            if sparse == "dense":\n                wrtfunc = self._write_ascii\n            elif sparse == "bigmat":\n                wrtfunc = self._write_ascii_bigmat\n'
+       '            elif sparse == "nonbigmat":\n                wrtfunc = self._write_ascii_nonbigmat\n            elif sparse != "auto":\n'
+       '                raise ValueError("invalid sparse option")\n            with open(filename, "w") as f:\n')
+
+
+def _wa_table(dense):
+    return (f'            ascii_writers = {{\n                "dense": self.{dense},\n                "bigmat": self._write_ascii_bigmat,\n'
+            '                "nonbigmat": self._write_ascii_nonbigmat,\n            }\n            if sparse in ascii_writers:\n'
+            '                wrtfunc = ascii_writers[sparse]\n            elif sparse != "auto":\n                raise ValueError("invalid sparse option")\n'
+            '            with open(filename, "w") as f:\n')
+
+
+_E2D = "        i, j, v = sp.find(m)\n        return m, i, j, _ensure_dp(v)\n"
+_BGR = ("            while nwords > 0:\n                L, r = s2(fp.read(b2))\n                nwords -= L + 1\n                L = (L - 1) // wper\n                r -= 1\n"
+        "                if L < cutoff:\n                    Y = struct.unpack(numform % L, fp.read(bytesreal * L))\n                else:\n"
+        "                    Y = np.fromfile(fp, numform2, L)\n                put(X, r, c, Y)\n")
+
+
+def _bgr(row):
+    return ("            def strings(nwords):\n                while nwords > 0:\n                    L, r = s2(fp.read(b2))\n                    nwords -= L + 1\n"
+            "                    L = (L - 1) // wper\n                    if L < cutoff:\n"
+            f"                        yield {row}, struct.unpack(numform % L, fp.read(bytesreal * L))\n                    else:\n"
+            f"                        yield {row}, np.fromfile(fp, numform2, L)\n\n            for r, Y in strings(nwords):\n                put(X, r, c, Y)\n")
+
+
+_SKB = "        bigmat = rows < 0 or rows >= self._rows4bigmat\n        if mtype & 1:\n            wper = 1\n        else:\n            wper = 2\n"
+
+RECIPES += [
+    ("C04", "neutral", [], F_, _SYM, _sym_helper("(rl, cu)"), "_is_symmetric: triangles from a nested helper, positions compared in a loop with early returns"),
+    ("C04", "break", ["C04-R8"], F_, _SYM, _sym_helper("(rl, ru)"), "_is_symmetric with a helper: rows of the lower triangle compared with rows of the upper one"),
+    ("C04", "neutral", [], F_, _SYM, _sym_early("cu"), "_is_symmetric: the conjunction unrolled into early returns (return the failed test / return False)"),
+    ("C04", "break", ["C04-R8"], F_, _SYM, _sym_early("ru"), "_is_symmetric unrolled: second early return compares rows with rows"),
+    ("C04", "neutral", [], F_, _WB, _wb_match("_write_binary_nonbigmat"), "write: binary dispatch by a match statement"),
+    ("C04", "break", ["C04-R7"], F_, _WB, _wb_match("_write_binary_bigmat"), "write: match statement sends 'nonbigmat' to the bigmat writer"),
+    ("C04", "neutral", [], F_, _WA, _wa_table("_write_ascii"), "write: ascii dispatch through a dictionary of bound methods"),
+    ("C04", "break", ["C04-R7"], F_, _WA, _wa_table("_write_ascii_bigmat"), "write: dictionary maps 'dense' to the bigmat writer"),
+    ("C04", "neutral", [], F_, _E2D, "        triplets = sp.find(m)\n        return (m, *triplets[:2], _ensure_dp(triplets[2]))\n", "_ensure_2d_dp: triplets passed on through a starred slice"),
+    ("C04", "break", ["C04-R7"], F_, _E2D, "        triplets = sp.find(m)\n        return (m, *triplets[1::-1], _ensure_dp(triplets[2]))\n".replace("triplets[1::-1]", "(triplets[1], triplets[0])"),
+     "_ensure_2d_dp: starred tuple passes (col, row) for (row, col)"),
+    ("C04", "neutral", [], F_, _BGR, _bgr("r - 1"), "bigmat binary reader: strings of a column from a nested generator"),
+    ("C04", "break", ["C04-R3"], F_, _BGR, _bgr("r"), "bigmat binary reader: generator yields the 1-based row"),
+    ("C04", "neutral", [], F_, _SKB, "        bigmat = not 0 <= rows < self._rows4bigmat\n        wper = 1 if mtype & 1 else 2\n", "skipper: chained comparison for the bigmat test"),
+    ("C04", "break", ["C04-R4"], F_, _SKB, "        bigmat = not 0 <= rows <= self._rows4bigmat\n        wper = 1 if mtype & 1 else 2\n", "skipper: chained comparison admits 65536 rows as nonbigmat"),
+]
